@@ -1996,15 +1996,18 @@ class Result:
             if n_shortened==1: CobaContext.logger.log(f"We shortened {n_shortened} learner evaluation because it was longer than the shortest environment.")
             if n_shortened>=2: CobaContext.logger.log(f"We shortened {n_shortened} learner evaluations because they were longer than the shortest environment.")
 
+        #even when nothing was dropped the tables may hold rows that were never evaluated
+        if not to_drop: to_keep = list(interactions.groupby(3,select=None))
+
         keep_envs,keep_lrns,keep_vals = map(set,zip(*to_keep)) if to_keep else ([],[],[])
 
-        if to_drop and len(keep_envs) != len(environments):
+        if len(keep_envs) != len(environments):
             environments = environments.where(environment_id=keep_envs)
 
-        if to_drop and len(keep_lrns) != len(learners):
+        if len(keep_lrns) != len(learners):
             learners = learners.where(learner_id=keep_lrns)
 
-        if to_drop and len(keep_vals) != len(evaluators):
+        if len(keep_vals) != len(evaluators):
             evaluators = evaluators.where(evaluator_id=keep_vals)
 
         return Result(environments, learners, evaluators, interactions, self.experiment)
